@@ -15,15 +15,20 @@ def gen2(n1, n2, nact):
             yield dict(bar=[n1, n2], actors=[list(c) for c in combo])
     return g
 
+def chain(*gens):
+    def g():
+        for x in gens:
+            yield from x()
+    return g
+
 def bounds(ctx):
     b = []
     for n in (1, 2, 3, 4):
-        for a in range(1, min(n + 2, 5) + 1):
-            b.append(("n%d-A%d" % (n, a), gen(n, a, 3 if a <= 3 else 2)))
+        b.append(("n%d-A1to%d" % (n, min(n + 2, 4)), chain(*[gen(n, a, 3) for a in range(1, min(n + 2, 4) + 1)])))
     b.append(("two-2-2-A3", gen2(2, 2, 3)))
     if not ctx.quick:
-        b += [("n5-A5", gen(5, 5, 2)), ("n5-A6", gen(5, 6, 1)), ("n6-A6", gen(6, 6, 2)), ("n3-A5w3", gen(3, 5, 3)), ("n2-A5w3", gen(2, 5, 3)),
-              ("two-2-3-A4", gen2(2, 3, 4)), ("n4-A6", gen(4, 6, 2))]
+        b += [("n3-A5", gen(3, 5, 2)), ("n4-A5", gen(4, 5, 2)), ("n5-A5", gen(5, 5, 2)), ("n5-A6", gen(5, 6, 1)), ("n6-A6", gen(6, 6, 2)),
+              ("n2-A5w3", gen(2, 5, 3)), ("two-2-3-A4", gen2(2, 3, 4)), ("n4-A6", gen(4, 6, 2)), ("n3-A5w3", gen(3, 5, 3))]
     return b
 
 def run(ctx):
